@@ -107,6 +107,12 @@ def gen_plan(S, index, tier):
         cfg['p']['intervals'] = 0.9
     if S.coin(0.4):
         cfg['small_alpha'] = True      # repeated residues: equal letters carrying different modifications
+    if S.coin(0.01):
+        # beyond the stated bound (1..25), rarely: protein-sized input (whatever is written for 'short peptides' only -
+        # packed indices, small-integer identities, recursion - meets a few hundred residues here)
+        cfg['minlen'], cfg['maxlen'], cfg['density'] = 257, S.pick([300, 520]), 0.05
+        cfg['small_alpha'] = False
+        header['long'] = True
     sp = SP.gen_pep(S, cfg)
     faults = [f for f in ('rng', 'abandon') if S.coin(0.6)]
     objs = ['X0']
